@@ -279,3 +279,67 @@ pub fn t_lf(m: &Lf) -> (String, &'static str) {
         Lf::BlockTxs(p, b, t) => (format!("(LfBlockTxs {} {} {})", t_pt(p), t_bm(b), t_raws(t)), "BlockTxs"), Lf::Done => ("LfDone".into(), "Done"),
     }
 }
+
+// ------------------------------------------------------------------ DMQ protocols and localstate query requests
+#[derive(Clone, Debug, PartialEq)] pub struct Dmq {
+    pub id: Vec<u8>, pub body: Vec<u8>, pub kes_period: u64, pub expires_at: u32, pub kes_sig: Vec<u8>,
+    pub kes_vk: Vec<u8>, pub issue: u64, pub start: u64, pub cert_sig: Vec<u8>, pub cold_vk: Vec<u8>,
+}
+#[derive(Clone, Debug, PartialEq)] pub enum DmqReason { Invalid(String), AlreadyReceived, Expired, Other(String) }
+#[derive(Clone, Debug, PartialEq)] pub enum Lms { Submit(Dmq), Accept, Reject(DmqReason), Done }
+#[derive(Clone, Debug, PartialEq)] pub enum Lmn { RequestNonBlocking, ReplyNonBlocking(Vec<Dmq>, bool), RequestBlocking, ReplyBlocking(Vec<Dmq>), ClientDone }
+#[derive(Clone, Debug, PartialEq)] pub enum Lq { Block(u16, u16), HardFork(u8), SystemStart, ChainBlockNo, ChainPoint }
+pub const LQ_NULLARY: &[u16] = &[0, 1, 3, 4, 5, 7, 8, 11, 12, 13, 14, 16, 18, 23, 24, 29, 32, 33, 34, 37];
+
+pub fn gen_dmq(r: &mut Rng) -> Dmq {
+    Dmq { id: small_blob(r), body: blob(r), kes_period: r.edge_u64(), expires_at: u32e(r), kes_sig: small_blob(r),
+          kes_vk: small_blob(r), issue: r.edge_u64(), start: r.edge_u64(), cert_sig: small_blob(r), cold_vk: small_blob(r) }
+}
+pub fn dmq_default() -> Dmq {
+    Dmq { id: vec![1, 2, 3], body: vec![4, 5, 6], kes_period: 7, expires_at: 8, kes_sig: vec![9], kes_vk: vec![12], issue: 15, start: 16, cert_sig: vec![17], cold_vk: vec![18] }
+}
+pub fn gen_lms(r: &mut Rng, v: u64) -> Lms {
+    match v % 7 {
+        0 => Lms::Submit(gen_dmq(r)), 1 => Lms::Accept, 2 => Lms::Reject(DmqReason::Invalid(text(r))), 3 => Lms::Reject(DmqReason::AlreadyReceived),
+        4 => Lms::Reject(DmqReason::Expired), 5 => Lms::Reject(DmqReason::Other(text(r))), _ => Lms::Done,
+    }
+}
+pub fn gen_lmn(r: &mut Rng, v: u64) -> Lmn {
+    match v % 5 {
+        0 => Lmn::RequestNonBlocking, 1 => Lmn::ReplyNonBlocking((0..r.below(4)).map(|_| gen_dmq(r)).collect(), r.bool()), 2 => Lmn::RequestBlocking,
+        3 => Lmn::ReplyBlocking((0..r.below(4)).map(|_| gen_dmq(r)).collect()), _ => Lmn::ClientDone,
+    }
+}
+pub fn t_dmq(m: &Dmq) -> String {
+    format!("(DmqMsg {} {} {} {} {} {} {} {} {} {})", coq_bytes(&m.id), coq_bytes(&m.body), m.kes_period, m.expires_at, coq_bytes(&m.kes_sig),
+            coq_bytes(&m.kes_vk), m.issue, m.start, coq_bytes(&m.cert_sig), coq_bytes(&m.cold_vk))
+}
+pub fn t_lms(m: &Lms) -> (String, &'static str) {
+    match m {
+        Lms::Submit(x) => (format!("(LmsSubmit {})", t_dmq(x)), "SubmitTx"), Lms::Accept => ("LmsAccept".into(), "AcceptTx"), Lms::Done => ("LmsDone".into(), "Done"),
+        Lms::Reject(DmqReason::Invalid(s)) => (format!("(LmsReject (DrInvalid {}))", t_str(s)), "RejectTx-Invalid"),
+        Lms::Reject(DmqReason::AlreadyReceived) => ("(LmsReject DrAlreadyReceived)".into(), "RejectTx-AlreadyReceived"),
+        Lms::Reject(DmqReason::Expired) => ("(LmsReject DrExpired)".into(), "RejectTx-Expired"),
+        Lms::Reject(DmqReason::Other(s)) => (format!("(LmsReject (DrOther {}))", t_str(s)), "RejectTx-Other"),
+    }
+}
+pub fn t_lmn(m: &Lmn) -> (String, &'static str) {
+    match m {
+        Lmn::RequestNonBlocking => ("LmnRequestNonBlocking".into(), "RequestMessagesNonBlocking"), Lmn::RequestBlocking => ("LmnRequestBlocking".into(), "RequestMessagesBlocking"),
+        Lmn::ReplyNonBlocking(l, h) => (format!("(LmnReplyNonBlocking {} {})", coq_list(l, t_dmq), coq_bool(*h)), "ReplyMessagesNonBlocking"),
+        Lmn::ReplyBlocking(l) => (format!("(LmnReplyBlocking {})", coq_list(l, t_dmq)), "ReplyMessagesBlocking"), Lmn::ClientDone => ("LmnClientDone".into(), "ClientDone"),
+    }
+}
+pub fn t_lq(m: &Lq) -> (String, String) {
+    match m {
+        Lq::Block(e, t) => (format!("(LqBlock {} {})", e, t), format!("BlockQuery-{}", t)), Lq::HardFork(t) => (format!("(LqHardFork {})", t), format!("HardForkQuery-{}", t)),
+        Lq::SystemStart => ("LqSystemStart".into(), "GetSystemStart".into()), Lq::ChainBlockNo => ("LqChainBlockNo".into(), "GetChainBlockNo".into()),
+        Lq::ChainPoint => ("LqChainPoint".into(), "GetChainPoint".into()),
+    }
+}
+/// the CBOR head-width boundaries inside 0..=max, plus max itself
+pub fn bounds(max: u64) -> Vec<u64> {
+    let mut v: Vec<u64> = [0u64, 1, 23, 24, 255, 256, 65535, 65536, u32::MAX as u64, 1 << 32, 1 << 63, u64::MAX].into_iter().filter(|x| *x <= max).collect();
+    if !v.contains(&max) { v.push(max) }
+    v
+}
